@@ -65,6 +65,11 @@ pub struct XCase {
     /// one meets the files in file order and the metadata in directory order
     #[serde(default)]
     pub central_order: Option<(u32, bool)>,
+    /// extract as an unprivileged user (effective uid 65534 for the duration of the call; the harness itself runs as
+    /// root, for whom the kernel neither strips set-uid / set-gid bits on write nor refuses anything): the recorded
+    /// permission bits must come out all the same
+    #[serde(default)]
+    pub unpriv: bool,
 }
 
 pub struct Extract;
@@ -313,7 +318,11 @@ impl Scenario for Extract {
         let host = if by_writer { None } else { match rh.below(8) { 0 | 1 => Some(0u8), 2 => Some(rh.pickc(&[10u8, 19, 7, 11, 14, 255])), _ => None } };
         let mut ro = Rng::derive(s, "central-order");
         let central_order = if !by_writer && entries.len() > 1 && ro.chance(1, 3) { Some((ro.below(entries.len() as u64) as u32, ro.chance(1, 2))) } else { None };
-        let case = XCase { entries, by_writer, seekable, policy: gen_policy_short(&mut r), fault, precreate, target_form, prefiles, host, central_order };
+        let unpriv = precreate.is_empty() && prefiles.is_empty() && Rng::derive(s, "unpriv").chance(1, 3);
+        // (the sandbox's "/" is not searchable for other users: an unprivileged extraction has to name its target
+        // relative to a working directory inside it)
+        let target_form = if unpriv { 4 } else { target_form };
+        let case = XCase { entries, by_writer, seekable, policy: gen_policy_short(&mut r), fault, precreate, target_form, prefiles, host, central_order, unpriv };
         serde_json::to_value(case).unwrap_or(Value::Null)
     }
 
@@ -480,6 +489,15 @@ impl Scenario for Extract {
             }
             ctx.probe("target_named_by_a_relative_path");
         }
+        let drop_priv = c.unpriv && c.target_form == 4 && unsafe { libc::geteuid() } == 0;
+        if drop_priv {
+            let _ = std::fs::set_permissions(&target, std::fs::Permissions::from_mode(0o777));
+            if unsafe { libc::seteuid(65534) } != 0 {
+                force_remove(&root);
+                return Verdict::Harness("seteuid(65534) failed".into());
+            }
+            ctx.probe("extracted_as_an_unprivileged_user");
+        }
         let res = guard(|| {
             if c.seekable {
                 let disk = SimDisk::new(store.clone(), pol.clone());
@@ -494,6 +512,9 @@ impl Scenario for Extract {
                 ZipStreamReader::new(st).extract(&target_arg).map_err(|e| zerr_pub(&e))
             }
         });
+        if drop_priv && unsafe { libc::seteuid(0) } != 0 {
+            return Verdict::Harness("could not regain the harness's privileges after extraction".into());
+        }
         if cwd.is_some() {
             let _ = std::env::set_current_dir("/");
         }
@@ -694,6 +715,9 @@ impl Scenario for Extract {
         }
         if c.central_order.is_some() {
             out.push(XCase { central_order: None, ..c.clone() });
+        }
+        if c.unpriv {
+            out.push(XCase { unpriv: false, ..c.clone() });
         }
         for i in 0..c.entries.len() {
             let e = &c.entries[i];
